@@ -285,8 +285,9 @@ func newBsGen(r *RNG, tier string) *bsGen {
 			continue
 		}
 		b := bsBlock{c: c, data: data, valid: true}
-		if r.Bool(20) && t != mh.IDENTITY {
-			// a block whose bytes do not hash to its CID (for hash-on-read)
+		if r.Bool(20) {
+			// a block whose bytes do not hash to its CID (for hash-on-read); for an identity multihash: bytes that differ
+			// from the ones inlined in the CID
 			b.data = append([]byte{0xff}, data...)
 			b.valid = false
 		}
